@@ -365,14 +365,16 @@ impl TryFrom<Envelope> for Response {
     type Error = Error;
 
     fn try_from(envelope: Envelope) -> Result<Self> {
-        let result = envelope.assertion_with_predicate(known_values::RESULT);
-        let error = envelope.assertion_with_predicate(known_values::ERROR);
+        // A repeated `result` or `error` assertion is itself invalid (ambiguous), so it
+        // is rejected here instead of being mistaken for an absent one.
+        let result = envelope.optional_assertion_with_predicate(known_values::RESULT)?;
+        let error = envelope.optional_assertion_with_predicate(known_values::ERROR)?;
 
-        if result.is_ok() == error.is_ok() {
+        if result.is_some() == error.is_some() {
             bail!("Invalid response - must have either a result or an error, but not both")
         }
 
-        if result.is_ok() {
+        if result.is_some() {
             let id = envelope
                 .subject().try_leaf()?
                 .try_into_expected_tagged_value(tags::TAG_RESPONSE)?
@@ -381,7 +383,7 @@ impl TryFrom<Envelope> for Response {
             return Ok(Response(Ok((id, result))));
         }
 
-        if error.is_ok() {
+        if error.is_some() {
             let id_value = envelope
                 .subject().try_leaf()?
                 .try_into_expected_tagged_value(tags::TAG_RESPONSE)?;
